@@ -180,6 +180,7 @@ func (tr *Transaction) Write(b *Batch, wo *opt.WriteOptions) error {
 }
 
 func (tr *Transaction) setDone() {
+	verifTrace(tr.db.s, "tx:done")
 	tr.closed = true
 	tr.db.tr = nil
 	tr.mem.decref()
@@ -209,22 +210,28 @@ func (tr *Transaction) Commit() error {
 		// Committing transaction.
 		tr.rec.setSeqNum(tr.seq)
 		tr.db.compCommitLk.Lock()
+		verifTrace(tr.db.s, "cl:lock", 1)
 		tr.stats.startTimer()
 		var cerr error
 		for retry := 0; retry < 3; retry++ {
 			cerr = tr.db.s.commit(&tr.rec, false)
+			verifTrace(tr.db.s, "tx:try", int64(retry), verifB(cerr != nil))
 			if cerr != nil {
 				tr.db.logf("transaction@commit error R·%d %q", retry, cerr)
 				select {
 				case <-time.After(time.Second):
 				case <-tr.db.closeC:
 					tr.db.logf("transaction@commit exiting")
+					verifTrace(tr.db.s, "cl:unlock", 1)
 					tr.db.compCommitLk.Unlock()
 					return cerr
 				}
 			} else {
 				// Success. Set db.seq.
+				verifGate(tr.db.s, "tx:after-install")
 				tr.db.setSeq(tr.seq)
+				verifTrace(tr.db.s, "tx:publish", int64(tr.seq))
+				verifGate(tr.db.s, "tx:after-publish")
 				break
 			}
 		}
@@ -240,6 +247,7 @@ func (tr *Transaction) Commit() error {
 
 		// Trigger table auto-compaction.
 		tr.db.compTrigger(tr.db.tcompCmdC)
+		verifTrace(tr.db.s, "cl:unlock", 1)
 		tr.db.compCommitLk.Unlock()
 
 		// Additionally, wait compaction when certain threshold reached.
@@ -252,6 +260,7 @@ func (tr *Transaction) Commit() error {
 }
 
 func (tr *Transaction) discard() {
+	verifTrace(tr.db.s, "tx:discard", int64(len(tr.tables)))
 	// Discard transaction.
 	for _, t := range tr.tables {
 		tr.db.logf("transaction@discard @%d", t.fd.Num)
@@ -331,5 +340,6 @@ func (db *DB) OpenTransaction() (*Transaction, error) {
 	}
 	tr.mem.incref()
 	db.tr = tr
+	verifTrace(db.s, "tx:open", int64(tr.seq))
 	return tr, nil
 }
